@@ -356,6 +356,8 @@ func Mix(spec *OpSpec, args []interface{}) interface{} {
 		return []string{strPool[x%uint64(len(strPool))]}
 	case TRawInt:
 		return int(x%7) - 3 // a plain Go int: user code is not obliged to return int64
+	case TAny:
+		return nil // "no value": legal for a user operator
 	}
 	return int64(x % 11)
 }
@@ -437,13 +439,18 @@ func (h *OpHost) Operator(name string) eval.Operator {
 			args[i] = p
 		}
 		v, err := env.CallOp(name, args)
+		if err != nil && len(name)%2 == 1 {
+			// an operator is free to return a value together with its error; the
+			// error is what counts
+			v = "value-returned-alongside-an-error"
+		}
 		if sp := h.Specs[name]; sp != nil && sp.Mutates {
 			for i := range params {
 				params[i] = "scribbled-by-" + name
 			}
 		}
 		if err != nil {
-			return nil, err
+			return v, err
 		}
 		return v, nil
 	}
